@@ -1328,11 +1328,141 @@ def _failing_wake_across_sessions(corr: Corr) -> None:
 # ---- C10 --------------------------------------------------------------------------------------
 
 
+# What a registered node's entry may hold as its own `protocol_version` (the library version the node reported in its
+# presentation, the placeholder default of the id-request handler, or whatever a persistence file held): both 1.x lines,
+# every 2.x line, patch levels, versions no protocol module exists for, strings that are no version at all.
+C10_NODE_PVS = ["1.4", "1.5", "1.5.1", "1.4.2", "2.0", "2.0.0", "2.1.1", "2.2", "2.2.0", "2.3.2", "1.0", "0.9", "3.0", "1.6.0-beta",
+                "2.0.0-rc.1", "", "x", "1", "2", "v1.5"]
+
+
+def _c10_node_pv(rng, line_safe: bool = False) -> str:
+    """A stored node version: mostly from the list above, now and then any version-like string."""
+    if rng.random() < 0.85:
+        return rng.choice(C10_NODE_PVS)
+    s = gw.rand_version_string(rng)
+    return rng.choice(C10_NODE_PVS) if line_safe and (";" in s or "\n" in s or "\r" in s) else s
+
+
+def _c10_random_history(rng, v: str, kinds) -> Hist:
+    """One random history.  The generator keeps an EXPECTATION of the registry (steering only, the oracle reads the real
+    one): preloaded nodes, nodes that presented themselves, ids handed out by id requests - senders are drawn from
+    nodes 1..3 and from the ids handed out, so that placeholder nodes (registered by an id request, never presented)
+    report from children they never presented."""
+    h = Hist(v if rng.random() < 0.85 else None, True)
+    r = rng.random()
+    if r < 0.2:
+        h.preload = [("node", 2, 17, "2.0", "", "", 0, 0, False, False), ("child", 2, 0, 0, 6, "")]
+    elif r < 0.65:
+        # a registry that was there before the first line (restored from a file, or presented in an earlier session):
+        # any stored version, with or without children, sleeping or not
+        for nid in (1, 2, 3):
+            if rng.random() < 0.55:
+                h.preload.append(("node", nid, rng.choice((17, 17, 18)), _c10_node_pv(rng), rng.choice(("", "Sk")), "", 0, 0,
+                                  False, rng.random() < 0.15))
+                for c in (0, 1, 2):
+                    if rng.random() < 0.3:
+                        h.preload.append(("child", nid, c, c, 6, ""))
+    reg = {p[1] for p in h.preload if p[0] == "node"}
+    handed: list = []
+    for _ in range(rng.randint(4, 30)):
+        senders = (1, 2, 3) + tuple(handed) * 2
+        nid = rng.choice(senders)
+        r = rng.random()
+        if r < 0.07:
+            line = f"255;{rng.choice((255, 255, 4))};3;0;3;"
+            nxt = max(reg) + 1 if reg else 1
+            if nxt <= 254:
+                reg.add(nxt)
+                if nxt not in handed and len(handed) < 3:
+                    handed.append(nxt)
+        elif r < 0.17:
+            line = f"{nid};255;0;0;{rng.choice((17, 17, 18))};{_c10_node_pv(rng, line_safe=True)}"
+            reg.add(nid)
+        elif r < 0.40 and nid in reg:
+            # set / req of a child of a (probably) registered node: the missing-child path
+            line = rng.choice(("{n};{c};1;{a};0;5", "{n};{c};2;{a};0;", "{n};{c};1;0;2;1")).format(
+                n=nid, c=rng.choice((0, 1, 2)), a=rng.choice((0, 0, 1)))
+        else:
+            line = rng.choice(kinds).format(n=nid, v=rng.choice((v, v, v + ".1", "2.1.0", "2.2", "1.5")))
+            f = line.split(";")
+            if f[1] == "255" and f[2] == "0" and f[4] == "17":
+                reg.add(nid)
+        faults = (rng.choice((False, True, True, gw.CANCEL)),) if rng.random() < 0.25 else ()
+        h.ops.append(("recv", line, faults, gw.DEFAULT_TIME))
+    return h
+
+
+def _c10_version_grid(ctx, rng) -> list:
+    """Episodes of a missing CHILD on a KNOWN node, systematically: gateway protocol x the version the node's entry holds x
+    how the entry came to be there (preloaded / restored without children, preloaded with another child, the node
+    presented itself with that version as payload, an id request registered a placeholder).  Each history: the node reports
+    from / is asked about a child it never presented (twice: one request), another node does the same (its own request),
+    possibly the first request write fails (then the next message asks again), the node presents itself (the entry's
+    version changes to the new payload; re-armed), and reports from the missing child again (one request, then silence)."""
+    out = []
+    origins = ("preloaded", "preloaded with another child", "presented", "id request")
+    pvs = list(C10_NODE_PVS)
+    k = 0
+    for v in lib.VERSIONS:
+        for origin in origins:
+            if ctx.tier == "thorough":
+                chosen = pvs
+            else:
+                # quick: half of the versions per (protocol, origin) cell, rotating with the seed and the cell; always one
+                # of each line (1.x, 2.x) so that no cell is ever without a node older / not older than the gateway
+                start = (ctx.seed * 7 + k * 3) % len(pvs)
+                chosen = [pvs[(start + 2 * j) % len(pvs)] for j in range(len(pvs) // 2)] + [rng.choice(("1.4", "1.5", "1.5.1"))]
+            k += 1
+            for pv in chosen:
+                h = Hist(v, True)
+                nid, other = rng.choice(((1, 2), (2, 1), (3, 1), (5, 7)))
+                child = rng.choice((0, 1, 4))
+                if origin.startswith("preloaded"):
+                    h.preload.append(("node", nid, 17, pv, rng.choice(("", "Sk")), "", 0, 0, False, False))
+                    if origin != "preloaded":
+                        h.preload.append(("child", nid, child + 1, child + 1, 6, ""))
+                elif origin == "presented":
+                    h.ops.append(("recv", f"{nid};255;0;0;17;{pv}", (), gw.DEFAULT_TIME))
+                else:
+                    # the id handed out is the highest registered id + 1: preload the ids below it (with the version of this
+                    # cell - they are other nodes), the placeholder itself gets the handler's default
+                    if nid > 1:
+                        h.preload.append(("node", nid - 1, 17, pv, "", "", 0, 0, False, False))
+                    h.ops.append(("recv", "255;255;3;0;3;", (), gw.DEFAULT_TIME))
+                    other = nid + 20
+                kinds = [f"{nid};{child};1;0;0;5", f"{nid};{child};2;0;0;", f"{nid};{child};1;1;2;1", f"{nid};{child};2;1;16;"]
+                first_fault = rng.choice(((), (), (True,), (gw.CANCEL,)))
+                h.ops.append(("recv", rng.choice(kinds), first_fault, gw.DEFAULT_TIME))
+                h.ops.append(("recv", rng.choice(kinds), (), gw.DEFAULT_TIME))
+                h.ops.append(("recv", f"{other};{child};1;0;0;5", (), gw.DEFAULT_TIME))
+                h.ops.append(("recv", rng.choice(kinds), (), gw.DEFAULT_TIME))
+                h.ops.append(("recv", f"{nid};255;0;0;17;{rng.choice(pvs)}", (), gw.DEFAULT_TIME))
+                h.ops.append(("recv", rng.choice(kinds), (), gw.DEFAULT_TIME))
+                h.ops.append(("recv", rng.choice(kinds), (), gw.DEFAULT_TIME))
+                out.append(h)
+    return out
+
+
+def _c10_pv_class(pv) -> str:
+    """Coverage only: which kind of version a known node's entry held when one of its children was missing."""
+    m = re.match(r"^(\d+)\.(\d+)", pv or "")
+    if not m:
+        return "not a dotted version"
+    major, minor = int(m.group(1)), int(m.group(2))
+    return "1.x" if major == 1 else "2.x" if major == 2 else "below 1.0" if major == 0 else "3 or more"
+
+
 def run_c10(ctx) -> Corr:
-    corr = Corr("C10", "histories over 3 known/unknown nodes mixing every kind that can hit a missing node or child (set, req, "
+    corr = Corr("C10", "histories over 3 known/unknown nodes (plus the ids handed out by id requests) mixing every kind that can "
+                "hit a missing node or child (set, req, "
                 "stream, child presentation, battery, sketch name/version, discover response, heartbeat response, pre-sleep), "
-                "node presentations and write faults on the request x 5 versions; compared on the writes view with the Lean "
-                "model; oracle = one outstanding-request flag per node maintained from the trace. non-trivial = distinct "
+                "node presentations with any version payload, id requests (placeholder entries) and write faults on the request "
+                "x 5 versions, over registries whose entries hold any stored node version (1.x, 2.x, patch levels, unknown "
+                "lines, no version at all); a grid protocol x stored node version x origin of the entry (preloaded, "
+                "presented, id request) of missing-child episodes; compared on the writes view with the Lean "
+                "model; oracle = one outstanding-request flag per node maintained from the trace, requests read from the "
+                "transport's write log. Plus registries restored from a persistence file (both file formats) by a real "
+                "`async with gateway`. non-trivial = distinct "
                 "(state, line) that fails with a missing-node/child error")
     rng = lib.rng_for(ctx.seed, "c10")
     hists = [h for _, h in corpus_histories("C10")]
@@ -1343,25 +1473,23 @@ def run_c10(ctx) -> Corr:
              # another party speaks in between: the gateway reports its version (again), presents itself, is ready
              "0;255;3;0;2;{v}", "0;255;0;0;18;{v}", "0;255;3;0;14;ready"]
     for i in range(n):
-        v = lib.VERSIONS[i % 5]
-        h = Hist(v if rng.random() < 0.85 else None, True)
-        if rng.random() < 0.3:
-            h.preload = [("node", 2, 17, "2.0", "", "", 0, 0, False, False), ("child", 2, 0, 0, 6, "")]
-        for _ in range(rng.randint(4, 30)):
-            line = rng.choice(kinds).format(n=rng.choice((1, 2, 3)), v=rng.choice((v, v, v + ".1", "2.1.0", "2.2", "1.5")))
-            faults = (rng.choice((False, True, True, gw.CANCEL)),) if rng.random() < 0.25 else ()
-            h.ops.append(("recv", line, faults, gw.DEFAULT_TIME))
-        hists.append(h)
+        hists.append(_c10_random_history(rng, lib.VERSIONS[i % 5], kinds))
+    hists += _c10_version_grid(ctx, lib.rng_for(ctx.seed, "c10grid"))
     impl = run_both(hists, corr, ctx, "writes", "writes view")
     for h, io in zip(hists, impl):
         outstanding: set = set()
+        placeholders: set = set()     # coverage only: ids that entered the registry through an id request, not yet presented
         for i, op in enumerate(h.ops):
             before, o = io[i], io[i + 1]
             f = fields_of(op[1]) if op[0] == "recv" else None
             if f is None:
                 continue
+            placeholders |= set(o["nodes"]) - set(before["nodes"]) if (f[2], f[4]) == (3, 3) else set()
+            if f[2] == 0 and f[1] == 255:
+                placeholders.discard(f[0])
             case = {"history": Hist(h.version, h.metric, h.preload, h.ops[: i + 1]).to_json(), "outcome": o["out"],
                     "writes": [list(w) for w in o["writes"]]}
+            # the requests of this step, read from the transport's write log (attempts: line, completed or not)
             reqs = [w for w in o["writes"] if w[0].split(";")[2:5] == ["3", "0", "19"]]
             if before["proto"] not in V20:
                 if reqs:
@@ -1372,6 +1500,10 @@ def run_c10(ctx) -> Corr:
             if f[2] == 0 and f[1] == 255:
                 outstanding.discard(f[0])
             if missing:
+                entry = before["nodes"].get(f[0])
+                corr.count("missing: unknown node" if entry is None else
+                           f"missing: child of a known node whose entry holds version {_c10_pv_class(entry['pv'])}"
+                           + (" (placeholder of an id request)" if f[0] in placeholders else ""))
                 if f[0] in outstanding:
                     if reqs:
                         corr.violate("a second presentation request was written before the node presented itself", case)
@@ -1387,7 +1519,127 @@ def run_c10(ctx) -> Corr:
                 break
     account(corr, hists, impl, lambda h, op, before, o: "missing" in o["out"])
     _cancelled_request(corr)
+    _c10_restored(corr, ctx)
     return corr
+
+
+# -- registries restored from a persistence file ---------------------------------------------------
+# The registry a controller starts with is usually not empty and not built by this run: `Config(persistence_file=...)`
+# restores it when the gateway context is entered - entries written by an earlier run (any node version: the nodes
+# of an installation are flashed at different times) or by pymysensors (the older file format the schema still reads).
+# A case: {"restored_registry": {"version", "format", "nodes": [[id, stored version, [children]]...], "lines": [...]}}.
+
+
+def _c10_restored_file(path: str, fmt: str, nodes) -> None:
+    import json
+    data = {}
+    for nid, pv, children in nodes:
+        if fmt == "aiomysensors":
+            data[str(nid)] = {"node_id": nid, "node_type": 17, "protocol_version": pv, "sketch_name": "Sk", "sketch_version": "1.0",
+                              "battery_level": 0, "heartbeat": 0, "sleeping": False,
+                              "children": {str(c): {"child_id": c, "child_type": 6, "description": "", "values": {}} for c in children}}
+        else:   # the pymysensors names, read through the schema's compatibility hook
+            data[str(nid)] = {"sensor_id": nid, "type": 17, "protocol_version": pv, "sketch_name": None, "sketch_version": None,
+                              "battery_level": 0, "heartbeat": 0,
+                              "children": {str(c): {"id": c, "type": 6, "description": "", "values": {}} for c in children}}
+    with open(path, "w", encoding="utf-8") as f:
+        json.dump(data, f)
+
+
+async def _c10_restored_run(sc: dict, path: str):
+    """Run one scenario on the real gateway; yields nothing, returns the steps: (line, outcome, registry before,
+    active protocol before, write attempts of the step)."""
+    from aiomysensors.gateway import Config, Gateway
+    _c10_restored_file(path, sc["format"], sc["nodes"])
+    tr = gw.FaultTransport()
+    g = Gateway(tr, Config(persistence_file=path))
+    steps = []
+    async with g:
+        for line in [f"0;255;3;0;2;{sc['version']}", *sc["lines"]]:
+            before = gw.snapshot_nodes(g)
+            proto = g.protocol.VERSION
+            tr.lines, tr.attempts = [line], []
+            try:
+                out = gw.render_msg(await anext(g.listen()))
+            except BaseException as e:  # noqa: BLE001
+                out = gw.render_exc(e)
+            steps.append((line, out, before, proto, list(tr.attempts)))
+    return steps
+
+
+def _c10_restored_judge(steps):
+    """The property over one run: (index of the first offending step, what) or None.  What is missing is decided from the
+    real registry before the step; the requests are the lines in the transport's write log."""
+    outstanding: set = set()
+    for i, (line, out, before, proto, attempts) in enumerate(steps):
+        f = fields_of(line)
+        if f is None:
+            continue
+        reqs = [w for w in attempts if w[0].split(";")[2:5] == ["3", "0", "19"]]
+        if proto not in V20:
+            if reqs:
+                return i, "a presentation request was written under a protocol before 2.0"
+            continue
+        if f[2] == 0 and f[1] == 255:
+            outstanding.discard(f[0])
+        missing = (f[2] in (1, 2) and (f[0] not in before or f[1] not in before[f[0]]["children"])) or (
+            f[2] == 0 and f[1] != 255 and f[0] not in before)
+        if missing and f[0] not in outstanding:
+            if [w[0] for w in reqs] != [f"{f[0]};255;3;0;19;\n"]:
+                return i, ("a message for an unknown node/child did not trigger exactly one presentation request addressed to "
+                           "that node (registry restored from a persistence file)")
+            outstanding.add(f[0])
+        elif reqs:
+            return i, ("a second presentation request was written before the node presented itself" if missing else
+                       "a presentation request was written although nothing was missing")
+    return None
+
+
+def _c10_restored_scenarios(ctx):
+    rng = lib.rng_for(ctx.seed, "c10restored")
+    out = []
+    for v in lib.VERSIONS:
+        for fmt in ("aiomysensors", "pymysensors"):
+            for _ in range(2 if ctx.tier == "quick" else 20):
+                ids = rng.sample((1, 2, 3, 7, 40), rng.randint(1, 3))
+                nodes = [[nid, _c10_node_pv(rng), sorted(rng.sample((0, 1, 2), rng.randint(0, 2)))] for nid in ids]
+                lines = []
+                for _ in range(rng.randint(5, 12)):
+                    nid = rng.choice(ids + [9])
+                    lines.append(rng.choice(("{n};{c};1;0;0;5", "{n};{c};2;0;0;", "{n};{c};1;1;2;1", "{n};{c};1;0;0;5", "{n};255;0;0;17;{pv}",
+                                             "{n};{c};0;0;6;d")).format(n=nid, c=rng.choice((0, 1, 2, 3)), pv=_c10_node_pv(rng, True)))
+                out.append({"version": v, "format": fmt, "nodes": nodes, "lines": lines})
+    return out
+
+
+def _c10_restored(corr: Corr, ctx) -> None:
+    import asyncio
+    import os
+    path = os.path.join(lib.scratch(), "c10-restored.json")
+    for sc in _c10_restored_scenarios(ctx):
+        steps = asyncio.run(_c10_restored_run(sc, path))
+        bad = _c10_restored_judge(steps)
+        n_missing = sum(1 for _, out, *_ in steps if "missing" in out)
+        corr.case(("restored", sc["version"], sc["format"], str(sc["nodes"]), str(sc["lines"])), n_missing > 0, None)
+        corr.count("restored registry: runs")
+        corr.count("restored registry: steps rejected for a missing node/child", n_missing)
+        if bad is not None:
+            i, what = bad
+            cut = {**sc, "lines": sc["lines"][:i]}     # step 0 is the version line
+            corr.violate(what, {"restored_registry": cut, "outcome": steps[i][1], "writes": [list(w) for w in steps[i][4]]})
+            return
+
+
+def replay_c10_restored(case) -> None:
+    import asyncio
+    import os
+    sc = case["restored_registry"]
+    print(f"persistence file ({sc['format']} format) holding [id, stored version, children]: {sc['nodes']}")
+    steps = asyncio.run(_c10_restored_run(sc, os.path.join(lib.scratch(), "c10-restored-replay.json")))
+    for i, (line, out, before, proto, attempts) in enumerate(steps):
+        print(f"step {i}: recv {line!r} (protocol {proto})\n   impl : {out} {attempts}")
+    bad = _c10_restored_judge(steps)
+    print("NOT reproduced" if bad is None else f"reproduced at step {bad[0]}: {bad[1]}")
 
 
 def _cancelled_request(corr: Corr) -> None:
